@@ -33,3 +33,11 @@ package intervalst
 //@   requires posok(i.Min) && posok(i.Max) && posok(other.Min) && posok(other.Max) && kcompat(i.Min, other.Min) && kcompat(i.Max, other.Max)
 //@   nofail
 //@   ensures[C51] result == ite(mval(i.Min) < mval(other.Min), -1, ite(mval(i.Min) > mval(other.Min), 1, ite(mval(i.Max) < mval(other.Max), -1, ite(mval(i.Max) > mval(other.Max), 1, 0))))
+
+// max3 (the subtree maximum kept in every node of the interval tree is computed with it): one of the three
+// positions, ranking no lower than any of them
+//@ func max3
+//@   requires posok(a) && posok(b) && posok(c) && kcompat(a, b) && kcompat(b, c) && kcompat(a, c)
+//@   nofail
+//@   ensures[C51] mval(result) >= mval(a) && mval(result) >= mval(b) && mval(result) >= mval(c)
+//@   ensures[C51] result == a || result == b || result == c
